@@ -39,7 +39,8 @@ ASSUMPTIONS = [
 EXPECTED_PROBES = [
     "cut-in-header-len", "cut-in-header-body", "cut-in-desc-len", "cut-in-desc-body", "cut-in-rec-len", "cut-in-rec-body",
     "cut-on-boundary", "gz-cut-in-gzip-header", "gz-cut-in-deflate", "gz-cut-in-trailer", "crash-with-nonempty-buffer",
-    "continue-lost-descriptor", "read-error-between-frames", "nested-record-stream", "two-faults-in-one-run",
+    "continue-lost-descriptor", "read-error-between-frames", "nested-record-stream", "two-faults-in-one-run", "iteration-resumed",
+    "two-writers-one-file-object",
 ]  # fmt: skip
 
 TYPES = ["string", "varint", "uint32", "boolean", "float", "bytes", "datetime", "string[]", "varint[]", "path", "net.ipaddress", "digest"]
@@ -120,7 +121,10 @@ def generate(rng, tier, index):
         policy = "fail-stop"
     # identifier twins are kept out of continue-policy runs: when the descriptor frame of one twin is refused and
     # the caller goes on, the reader cannot tell its records from the other twin's (a limit of 32-bit identifiers)
-    pool = gen_pool(rng, big, allow_identifier_twins=(policy != "continue"))
+    two_writers = stack in ("raw", "buf", "gz", "gzbuf") and rng.random() < 0.2
+    # ... and out of runs with two writers appending to one file object: each writer only knows what it announced
+    # itself, so two interleaved writers cannot keep "the latest definition under this identifier" straight
+    pool = gen_pool(rng, big, allow_identifier_twins=(policy != "continue" and not two_writers))
     keys = [k for k in sorted(pool) if k != "C0"]
     n_rec = rng.choice([0, 1, 2, 3, 4, 6, 9, 14] if not thorough else [0, 1, 2, 3, 5, 8, 13, 21, 40])
     flush_every = rng.choice([0, 0, 1, 2, 3])
@@ -130,7 +134,7 @@ def generate(rng, tier, index):
     twin = "D9" in pool and rng.random() < 0.7
     for i in range(n_rec):
         k = rng.choice(["D0", "D9"]) if twin and rng.random() < 0.8 else rng.choice(keys)
-        ops.append({"op": "write", "desc": k, "values": gen_values(rng, pool, k, big)})
+        ops.append({"op": "write", "desc": k, "values": gen_values(rng, pool, k, big), "w": rng.choice([0, 0, 1])})
         if flush_every and (i + 1) % flush_every == 0:
             ops.append({"op": rng.choice(["fpflush", "fpflush", "flush"])})
     if rng.random() < 0.85 or mode == "faultfree":
@@ -153,6 +157,8 @@ def generate(rng, tier, index):
         "salt": rng.randrange(0, 1 << 16),
         "gz": gzreader,
         "fault_layer": layer,
+        "resume": rng.random() < 0.2,
+        "two_writers": two_writers,
     }
     cap = (2048 if not thorough else 65536)
     plan = {"config": cfg, "pool": pool, "ops": ops, "mode": mode, "faults": "enumerate", "cap": cap,
@@ -253,10 +259,14 @@ class WriterRun:
         hp = HandlePlan(write_faults=write_faults or {})
         from flow.record import RecordStreamWriter, RecordWriter
 
+        self.writer2 = None
+        two = bool(cfg.get("two_writers")) and cfg["stack"] in ("raw", "buf", "gz", "gzbuf")
         if stack == "tap":
             self.sink = io.BytesIO()
             self.tap = Tap(self.sink)
             self.writer = RecordStreamWriter(self.tap)
+            if two:
+                self.writer2 = RecordStreamWriter(self.tap)
         elif stack in ("raw", "buf", "gz", "gzbuf"):
             self.raw = world.new_raw("wb", plan=hp, label="w0.raw")
             fp = self.raw
@@ -270,6 +280,11 @@ class WriterRun:
                 world.keep.extend(self.layers)
                 self.tap = Tap(fp, fp_faults, world)
                 self.writer = RecordStreamWriter(self.tap)
+                if two:
+                    # a second stream writer appending to the same file object (its own packer, its own header)
+                    self.writer2 = RecordStreamWriter(self.tap)
+                    world.keep.append(self.writer2)
+                    world.probe("two-writers-one-file-object")
                 world.log("w0", "open", "-> ok")
             except Exception as e:  # noqa: BLE001  (a fault may hit while the gzip header is written)
                 self.tap = self.tap or Tap(io.BytesIO())
@@ -349,7 +364,8 @@ class WriterRun:
                 self.attempted.append(obs_record(rec))
                 if self.tap is not None:
                     self.tap.ctx = idx
-                if self._call("write#%d" % idx, lambda: self.writer.write(rec)):
+                wr = self.writer2 if (self.writer2 is not None and op.get("w") == 1) else self.writer
+                if self._call("write#%d" % idx, lambda: wr.write(rec)):
                     self.returned.append(idx)
             elif kind == "flush":
                 self._call("flush", self.writer.flush)
@@ -365,6 +381,8 @@ class WriterRun:
     def _close(self):
         # close the whole stack the way a careful caller would (innermost last)
         first = None
+        if self.writer2 is not None:
+            self.writer2.fp = None  # the shared file object is closed once, by the first writer
         try:
             self.writer.close()
         except Exception as e:  # noqa: BLE001
@@ -437,6 +455,14 @@ def read_back(world, data, cfg, reader, delivery, gz, read_error_at=None, tag="r
         else:
             raise ValueError(reader)
         world.keep.append(rd)
+        if cfg.get("resume"):
+            # the consumer takes one record, abandons that iterator, and later iterates the same reader again
+            it = iter(rd)
+            first = next(it, None)
+            if first is not None:
+                got.append(obs_record(first))
+            del it
+            world.probe("iteration-resumed")
         for rec in rd:
             got.append(obs_record(rec))
             if len(got) > 100000:
